@@ -455,7 +455,39 @@ def c18(run):
         extra_assumptions=["strconv / net/url are the conversion oracle", "byte-level fidelity is a logged fact compared for equality by TLC"])
 
 
-PROPS = {"C18": c18, "C16": c16, "C05": c05, "C06": c06, "C11": c11, "C04": c04, "C03": c03, "C14": c14, "C15": c15, "C13": c13, "C01": c01, "C02": c02, "C07": c07, "C08": c08, "C09": c09, "C10": c10, "C12": c12}
+# ============================================================== render
+def c17(run):
+    quick = run.tier == "quick"
+    run.build_harness()
+    env = {"VERIF_SEED": str(run.seed)}
+    cfg = lambda dev, emit: ("SPECIFICATION Spec\nCONSTANTS\n Dev = %s\n EmitCases = %s\nINVARIANT Conforms\nCONSTRAINT EmitCase\nCHECK_DEADLOCK FALSE\n"
+                             % (vlib.tla_set(dev), "TRUE" if emit else "FALSE"))
+    run.tlc("Render", cfg(["FIXEDCHARSET"], False), name="RD_neg", expect_violation="Conforms", workers=4)
+    r = run.model_check("Render", cfg([], True), name="RD_gen", want_cases=True, workers=4)
+    run.cov["exhaustive"] = True
+    # every table cell several times with different random values
+    reps = os.path.join(run.work, "rd_cells.jsonl")
+    with open(reps, "w") as g:
+        for k in range(4 if quick else 40):
+            g.write(open(r["cases_file"]).read())
+    run.conformance("rd_table", "render", reps, "RenderTrace", TRACE_CFG % "", env=env)
+    gen = os.path.join(run.work, "rd_rand.jsonl")
+    with open(gen, "w") as fo:
+        p = run.hrun(["render", "gen", run.seed, 3000 if quick else 150000], stdout=fo)
+    if p.returncode != 0:
+        raise Infra("render gen failed: " + p.stderr[-2000:])
+    run.conformance("rd_random", "render", gen, "RenderTrace", TRACE_CFG % "", env=env, chunk_events=40000)
+    return run.finish(
+        rule="TLC enumerates the table format x status x charset x indentation x position of the handler relative to the Renderer "
+             "middleware (128 cells) and checks the code-shaped option handling against the table; every cell is rendered on a real Flame "
+             "over a spy writer with random values (random nested JSON values, an XML document type, random bytes and text) and TLC "
+             "validates status, Content-Type (also as seen when the status went out), resolvability of Render, and the logged facts that the "
+             "body decodes back to the value and equals the standard encoder's output with the configured indentation; random statuses "
+             "200-599, charsets and indents beyond the table. Non-trivial = every case (distinct value seeds).",
+        extra_assumptions=["encoding/json and encoding/xml are the fidelity oracle (encode/decode fidelity cannot be expressed over uninterpreted bytes in TLA+)"])
+
+
+PROPS = {"C17": c17, "C18": c18, "C16": c16, "C05": c05, "C06": c06, "C11": c11, "C04": c04, "C03": c03, "C14": c14, "C15": c15, "C13": c13, "C01": c01, "C02": c02, "C07": c07, "C08": c08, "C09": c09, "C10": c10, "C12": c12}
 
 
 def main():
